@@ -65,12 +65,18 @@ def _col(kind, vals):
     return np.array([float("nan") if v is None else float(v) for v in vals], dtype=np.float64)
 
 
-def _bins_df(rows, extras):
+def _bins_df(rows, extras, order=None):
     df = pd.DataFrame({"chrom": [r[0] for r in rows],
                        "start": np.array([r[1] for r in rows], dtype=np.int64),
                        "end": np.array([r[2] for r in rows], dtype=np.int64)})
     for name, kind, vals in extras:
         df[name] = _col(kind, vals)
+    if order is not None:
+        # columns are named: their ORDER in the frame is presentation only (extra columns before / among chrom,start,end)
+        import random
+        cols = list(df.columns)
+        random.Random(order).shuffle(cols)
+        df = df[cols]
     return df
 
 
@@ -183,9 +189,10 @@ def _scool(case):
     path = os.path.join(gen.tmpdir(), f"c17-{os.getpid()}.scool")
     try:
         if case["form"] == "common":
-            bins = _bins_df(case["rows"], case.get("common_extras", []))
+            bins = _bins_df(case["rows"], case.get("common_extras", []), case.get("col_order"))
         else:
-            bins = {name: _bins_df(case["rows"], ex) for name, ex in case["percell"]}
+            bins = {name: _bins_df(case["rows"], ex, None if case.get("col_order") is None else case["col_order"] + k)
+                    for k, (name, ex) in enumerate(case["percell"])}
         cells = {n: _px_df(px) for n, px in case["cells"]}
         try:
             cooler.create_scool(path, bins, cells, symmetric_upper=case["symm"])
@@ -293,6 +300,11 @@ def cases(tier, rng):
             percell = [[names3[k], [["weight", "f", [k + 0.5, k + 1.5, None]]] + ([["mask", "i", [k, 0, 1]]] if k % 2 else [])]
                        for k in range(m)]
             yield "scool", {"form": "percell", "symm": True, "rows": rows, "percell": percell[::-1], "cells": cells}
+    # extra columns placed before / among chrom, start, end in the given frames (seeded change C17-5)
+    for od in (1, 2, 3, 4):
+        yield "scool", {"form": "percell", "symm": True, "rows": rows, "col_order": od,
+                        "percell": [["a", [["weight", "f", [0.5, 1.5, None]]]], ["b", [["weight", "f", [2.5, None, 1.0]], ["mask", "i", [1, 0, 1]]]]],
+                        "cells": [["a", fam[2]], ["b", fam[3]]]}
     # a common table that itself has further columns (kept at the root and written per cell as well)
     yield "scool", {"form": "common", "symm": True, "rows": rows,
                     "common_extras": [["weight", "f", [1.0, None, 0.5]], ["mask", "i", [1, 0, 1]]],
@@ -315,6 +327,8 @@ def cases(tier, rng):
             pc = [[name, cell_extras(rng, n, k + 1)] for k, name in enumerate(names)]
             rng.shuffle(pc)  # the bins dict need not be in the order of the pixel dict
             case["percell"] = pc
+        if i % 3 == 2:
+            case["col_order"] = rng.randrange(10 ** 6)   # the bin frame's columns in a shuffled order
         yield "scool", case
 
 
